@@ -35,7 +35,7 @@ def check(cx):
     cx.guard(r1, wbm, p.fn, wbm)
     ALLOWED = {K.PAGER_FLUSH: "checkpoint write-back", K.PAGER + "::cache_frame": "write-back of an evicted frame"}
     for c in K.callers_of(p, wbm, set(ALLOWED)):
-        cx.verdict(c in ALLOWED, r1, "with_bytes_mut<-" + c, p.fn(c).where(), ALLOWED.get(c, ""),
+        cx.verdict(c in ALLOWED, r1, "with_bytes_mut<-" + c, p.where_of(c), ALLOWED.get(c, ""),
                    "%s takes raw mutable bytes of a frame without the dirty-marking latch" % c)
 
     # ---- C12.2 eviction ------------------------------------------------------------------------
